@@ -216,13 +216,134 @@ theorem listPrim_shape (env : Env) (l : TList) (idx : Int) (ins : Bool) (v : Val
 
 /-! ### The path condition and the main lemma -/
 
+/-! ### A container behind a Union field is governed by the candidate it is bound to -/
+
+theorem vtUnion_sub (cands : List Spec) : ∀ ts, vtUnion cands = some ts → ∀ c ∈ cands, ∀ tc, vt c = some tc →
+    ∀ t ∈ tc, t ∈ ts := by
+  induction cands with
+  | nil => intro ts _ c hc; cases hc
+  | cons x xs ih =>
+    intro ts h c hc tc htc t ht
+    simp only [vtUnion] at h
+    cases hx : vt x with
+    | none => simp [hx] at h
+    | some a =>
+      cases hxs : vtUnion xs with
+      | none => simp [hx, hxs] at h
+      | some b =>
+        simp only [hx, hxs, Option.some.injEq] at h
+        subst h
+        simp only [List.mem_cons] at hc
+        rcases hc with hc | hc
+        · subst hc; rw [hx] at htc; injection htc with htc; subst htc
+          exact List.mem_append_left _ ht
+        · exact List.mem_append_right _ (ih b hxs c hc tc htc t ht)
+
+theorem unionPick_spec (env : Env) (v : Val) (cands : List Spec) (c : Spec) (h : unionPick env v cands = some c) :
+    c ∈ cands ∧ ∃ tc, vt c = some tc ∧ instOf env v tc = true := by
+  induction cands with
+  | nil => simp [unionPick] at h
+  | cons x xs ih =>
+    simp only [unionPick] at h
+    cases hx : vt x with
+    | none =>
+      simp only [hx] at h
+      obtain ⟨h1, h2⟩ := ih h
+      exact ⟨List.mem_cons_of_mem _ h1, h2⟩
+    | some tx =>
+      simp only [hx] at h
+      by_cases hi : instOf env v tx = true
+      · simp only [hi, if_true, Option.some.injEq] at h
+        subst h
+        exact ⟨List.mem_cons_self, tx, hx, hi⟩
+      · simp only [hi] at h
+        obtain ⟨h1, h2⟩ := ih h
+        exact ⟨List.mem_cons_of_mem _ h1, h2⟩
+
+theorem unionStrong_pick (env : Env) (p : Bool) (v : Val) (cands : List Spec) (c : Spec)
+    (h : unionPick env v cands = some c) : unionStrong env cands p v = some (apply env c p v) := by
+  induction cands with
+  | nil => simp [unionPick] at h
+  | cons x xs ih =>
+    simp only [unionPick] at h
+    simp only [unionStrong]
+    cases hx : vt x with
+    | none => simp only [hx] at h ⊢; exact ih h
+    | some tx =>
+      simp only [hx] at h ⊢
+      by_cases hi : instOf env v tx = true
+      · simp only [hi, if_true, Option.some.injEq] at h ⊢
+        subst h; rfl
+      · simp only [hi] at h ⊢
+        exact ih h
+
+/-- A proper value that a non-frozen Union binds to candidate `c` is applied by `c`. -/
+theorem apply_union_pick (env : Env) (cands : List Spec) (f : Flags) (hf : f.frozen = false) (p : Bool) (v : Val)
+    (hm : v.isMissing = false) (hn : v.isNone = false) (c : Spec) (h : unionPick env v cands = some c) :
+    apply env (.union cands f) p v = apply env c p v := by
+  obtain ⟨hmem, tc, htc, hi⟩ := unionPick_spec env v cands c h
+  have htck : typeCheck env (vtUnion cands) v = .ok v := by
+    unfold typeCheck
+    cases hv : vtUnion cands with
+    | none => rfl
+    | some ts =>
+      have : instOf env v ts = true := by
+        unfold instOf at hi ⊢
+        rw [List.any_eq_true] at hi ⊢
+        obtain ⟨t, ht, hsub⟩ := hi
+        exact ⟨t, vtUnion_sub cands ts hv c hmem tc htc t ht, hsub⟩
+      simp [this]
+  simp only [apply, gate, hf, hm, hn, Bool.false_eq_true, if_false, htck, bind, Except.bind,
+    unionStrong_pick env p v cands c h]
+
+theorem instOf_ty (env : Env) (v v' : Val) (h : v.ty = v'.ty) (ts : List Ty) : instOf env v ts = instOf env v' ts := by
+  unfold instOf; rw [h]
+
+theorem unionPick_ty (env : Env) (v v' : Val) (h : v.ty = v'.ty) (cands : List Spec) :
+    unionPick env v cands = unionPick env v' cands := by
+  induction cands with
+  | nil => rfl
+  | cons x xs ih =>
+    simp only [unionPick]
+    cases vt x with
+    | none => exact ih
+    | some tx => simp only [instOf_ty env v v' h tx, ih]
+
+theorem boundSpec_ty (env : Env) (s : Spec) (v v' : Val) (h : v.ty = v'.ty) : boundSpec env s v = boundSpec env s v' := by
+  cases s <;> simp only [boundSpec]
+  rw [unionPick_ty env v v' h]
+
+/-- The Union-level condition of `PathOK`: not frozen, and bound to some candidate. -/
+def UnionOK (env : Env) (s : Spec) (v : Val) : Prop :=
+  match s with
+  | .union cands f => f.frozen = false ∧ ∃ c, unionPick env v cands = some c
+  | _ => True
+
+/-- Under `UnionOK`, a container value is a fixed point of its field spec iff it is one of the spec it
+is bound to. -/
+theorem apply_bound (env : Env) (s : Spec) (v : Val) (hu : UnionOK env s v) (hm : v.isMissing = false)
+    (hn : v.isNone = false) : apply env s false v = apply env (boundSpec env s v) false v := by
+  cases s <;> try rfl
+  rename_i cands f
+  obtain ⟨hf, c, hc⟩ := hu
+  simp only [boundSpec, hc, Option.getD_some]
+  exact apply_union_pick env cands f hf false v hm hn c hc
+
+theorem frozenAt_bound (env : Env) (s : Spec) (v : Val) (hu : UnionOK env s v)
+    (hb : (boundSpec env s v).flags.frozen = false) : frozenAt env s v = false := by
+  unfold frozenAt
+  rw [hb, Bool.or_false]
+  cases s <;> first | (simpa [boundSpec] using hb) | exact hu.1
+
 /-- What the theorem asks of the containers along a nested path: typed dicts (with schema, distinct
 keys, a Python dict as value) and typed lists, none of them frozen (F185), field / element specs with
-idempotent `apply`.  (Union-typed and untyped descendants are modelled but not covered here.) -/
+idempotent `apply`; a descendant behind a non-frozen Union field is covered through the candidate it is
+bound to (`UnionOK`).  (Untyped descendants are modelled but not covered here.) -/
 def PathOK (env : Env) : Spec → Val → List PKey → Prop
   | _, _, [] => False
   | s, v, hd :: rest =>
-    match s, v, hd with
+    UnionOK env s v ∧
+    match boundSpec env s v, v, hd with
     | .dict (some fs) f, .dict kvs, .key k =>
       f.frozen = false ∧ distinctKeys (fieldKeySpecs fs) = true ∧ (kvs.map (·.1)).Nodup ∧
       (∀ fld ∈ fs, Idem env false fld.value) ∧ (∀ fld ∈ fs, MissingOK env false fld.value) ∧
@@ -248,7 +369,7 @@ theorem nestedSet_container (env : Env) (pb : Val → Bool) (path : List PKey) :
         | (injection h with h; rw [← h]; rfl)
     | cons t ts =>
       simp only [nestedSet] at h
-      split at h <;> (try (split at h)) <;> (try (split at h)) <;>
+      split at h <;> (try (split at h)) <;> (try (split at h)) <;> (try (split at h)) <;>
         first
         | (cases h; done)
         | (injection h with h; rw [← h]; rfl)
@@ -263,22 +384,37 @@ theorem nestedSet_fix (env : Env) (pb : Val → Bool) (path : List PKey) :
   | nil => intro s v ins a v' hp; simp [PathOK] at hp
   | cons hd tl ih =>
     intro s v ins a v' hp hfix h
-    cases s with
+    simp only [PathOK] at hp
+    obtain ⟨hu, hp⟩ := hp
+    cases hb : boundSpec env s v with
     | dict fields f =>
       cases fields with
-      | none => cases v <;> cases hd <;> simp [PathOK] at hp
+      | none => rw [hb] at hp; cases v <;> cases hd <;> simp at hp
       | some fs =>
         cases v with
         | dict kvs =>
           cases hd with
-          | idx i => simp [PathOK] at hp
+          | idx i => rw [hb] at hp; simp at hp
           | key k =>
-            simp only [PathOK] at hp
+            rw [hb] at hp
+            simp only at hp
             obtain ⟨hf, hd', hnd, hI, hM, hrec⟩ := hp
-            obtain ⟨hc, hs⟩ := conforms_of_dict_fix env fs f hf hd' hI hM kvs hnd hfix
+            have hvm : (Val.dict kvs).isMissing = false ∧ (Val.dict kvs).isNone = false := ⟨rfl, rfl⟩
+            have hfix' : apply env (.dict (some fs) f) false (.dict kvs) = .ok (.dict kvs) := by
+              rw [← hb, ← apply_bound env s _ hu hvm.1 hvm.2]; exact hfix
+            obtain ⟨hc, hs⟩ := conforms_of_dict_fix env fs f hf hd' hI hM kvs hnd hfix'
+            -- the result is again a dict: bound to the same spec, so it suffices to fix that spec
+            have back : ∀ kvs', apply env (.dict (some fs) f) false (.dict kvs') = .ok (.dict kvs') →
+                apply env s false (.dict kvs') = .ok (.dict kvs') := by
+              intro kvs' hx
+              have hty : (Val.dict kvs).ty = (Val.dict kvs').ty := rfl
+              have hu' : UnionOK env s (.dict kvs') := by
+                cases s <;> simp only [UnionOK] at hu ⊢
+                rw [← unionPick_ty env _ _ hty]; exact hu
+              rw [apply_bound env s _ hu' rfl rfl, ← boundSpec_ty env s _ _ hty, hb]; exact hx
             cases tl with
             | nil =>
-              simp only [nestedSet, boundSpec] at h
+              simp only [nestedSet, hb] at h
               cases hpm : dictPrim env false pb ⟨fs, kvs⟩ k (.plain a) with
               | mk d' e =>
                 simp only [hpm] at h
@@ -295,9 +431,11 @@ theorem nestedSet_fix (env : Env) (pb : Val → Bool) (path : List PKey) :
                     have := h1.1; rw [← hfields]; exact this
                   have hs' : NoStaleMissing env false ⟨fs, d'.kvs⟩ := by
                     rw [← hfields]; exact h2
-                  exact dict_fix_of_conforms env fs f hf hd' d'.kvs hc' hs'
+                  exact back _ (dict_fix_of_conforms env fs f hf hd' d'.kvs hc' hs')
             | cons t ts =>
-              simp only [nestedSet, boundSpec] at h
+              have hfa : frozenAt env s (.dict kvs) = false :=
+                frozenAt_bound env s _ hu (by rw [hb]; exact hf)
+              simp only [nestedSet, hb, hfa, Bool.false_eq_true, if_false] at h
               cases hl : lookup kvs k with
               | none => simp [hl] at h
               | some c =>
@@ -318,20 +456,31 @@ theorem nestedSet_fix (env : Env) (pb : Val → Bool) (path : List PKey) :
                     have hc'fix := ih fld.value c ins a c' (hrec (by simp) c fld hl hg) hcfix hn
                     have hnm := nestedSet_container env pb (t :: ts) fld.value c ins a c' hn
                     obtain ⟨hc2, hs2⟩ := replace_entry_conforms env fs kvs k fld c' hg hc'fix hnm hc hs
-                    exact dict_fix_of_conforms env fs f hf hd' _ hc2 hs2
-        | _ => cases hd <;> simp [PathOK] at hp
+                    exact back _ (dict_fix_of_conforms env fs f hf hd' _ hc2 hs2)
+        | _ => rw [hb] at hp; cases hd <;> simp at hp
     | list elem mn mx f =>
       cases v with
       | list items =>
         cases hd with
-        | key k => simp [PathOK] at hp
+        | key k => rw [hb] at hp; simp at hp
         | idx i =>
-          simp only [PathOK] at hp
+          rw [hb] at hp
+          simp only at hp
           obtain ⟨hf, hI, hrec⟩ := hp
-          have hc := (list_fix_iff env elem mn mx f hf items).1 hfix
+          have hfix' : apply env (.list elem mn mx f) false (.list items) = .ok (.list items) := by
+            rw [← hb, ← apply_bound env s _ hu rfl rfl]; exact hfix
+          have hc := (list_fix_iff env elem mn mx f hf items).1 hfix'
+          have back : ∀ xs', apply env (.list elem mn mx f) false (.list xs') = .ok (.list xs') →
+              apply env s false (.list xs') = .ok (.list xs') := by
+            intro xs' hx
+            have hty : (Val.list items).ty = (Val.list xs').ty := rfl
+            have hu' : UnionOK env s (.list xs') := by
+              cases s <;> simp only [UnionOK] at hu ⊢
+              rw [← unionPick_ty env _ _ hty]; exact hu
+            rw [apply_bound env s _ hu' rfl rfl, ← boundSpec_ty env s _ _ hty, hb]; exact hx
           cases tl with
           | nil =>
-            simp only [nestedSet, boundSpec] at h
+            simp only [nestedSet, hb] at h
             cases hpm : listPrim env ⟨elem, mn, mx, items⟩ i ins a with
             | mk l' e =>
               simp only [hpm] at h
@@ -348,9 +497,9 @@ theorem nestedSet_fix (env : Env) (pb : Val → Bool) (path : List PKey) :
                   obtain ⟨e1, e2, e3⟩ := this
                   cases l'; simp only at e1 e2 e3; subst e1; subst e2; subst e3; rfl
                 rw [hl'] at h1
-                exact (list_fix_iff env elem mn mx f hf l'.items).2 h1.1
+                exact back _ ((list_fix_iff env elem mn mx f hf l'.items).2 h1.1)
           | cons t ts =>
-            simp only [nestedSet, boundSpec] at h
+            simp only [nestedSet, hb] at h
             cases hi : items[i]? with
             | none => simp [hi] at h
             | some c =>
@@ -363,13 +512,13 @@ theorem nestedSet_fix (env : Env) (pb : Val → Bool) (path : List PKey) :
                 subst h
                 have hmem : c ∈ items := List.mem_of_getElem? hi
                 have hc'fix := ih elem c ins a c' (hrec (by simp) c hi) (hc.1 c hmem) hn
-                refine (list_fix_iff env elem mn mx f hf _).2 ⟨?_, ?_⟩
+                refine back _ ((list_fix_iff env elem mn mx f hf _).2 ⟨?_, ?_⟩)
                 · intro x hx
                   rcases List.mem_or_eq_of_mem_set hx with hx | hx
                   · exact hc.1 x hx
                   · subst hx; exact hc'fix
                 · simp only [List.length_set]; exact hc.2
-      | _ => cases hd <;> simp [PathOK] at hp
-    | _ => cases v <;> cases hd <;> simp [PathOK] at hp
+      | _ => rw [hb] at hp; cases hd <;> simp at hp
+    | _ => rw [hb] at hp; cases v <;> cases hd <;> simp at hp
 
 end Pg.C03
